@@ -2,6 +2,7 @@ package scen
 
 import (
 	"bytes"
+	"encoding/hex"
 	"fmt"
 	"strings"
 	"time"
@@ -52,10 +53,14 @@ type slNode struct {
 	Jails    []jailEv
 	Repls    []replEv
 	Stopped  map[string]bool
+	// Out: the harness's own ledger of outstanding downtime reports, "<consumer>/<hex address>": set when
+	// the consumer queues a downtime report, cleared when a VSC packet acknowledging that address
+	// arrives (or, don't-care, when the validator joins the consumer's set anew / during a long wait)
+	Out map[string]bool
 }
 
 func (n *slNode) clone() *slNode {
-	o := &slNode{XNode: n.XNode.Clone(), InFlight: map[string]bool{}, Stopped: map[string]bool{},
+	o := &slNode{XNode: n.XNode.Clone(), InFlight: map[string]bool{}, Stopped: map[string]bool{}, Out: map[string]bool{},
 		Jails: append([]jailEv{}, n.Jails...), Repls: append([]replEv{}, n.Repls...)}
 	for k, v := range n.InFlight {
 		o.InFlight[k] = v
@@ -63,15 +68,20 @@ func (n *slNode) clone() *slNode {
 	for k, v := range n.Stopped {
 		o.Stopped[k] = v
 	}
+	for k, v := range n.Out {
+		o.Out[k] = v
+	}
 	return o
 }
+
+func outKey(cid string, addr sdk.ConsAddress) string { return fmt.Sprintf("%s/%x", cid, []byte(addr)) }
 
 func (n *slNode) digest() string {
 	var b strings.Builder
 	for _, k := range sortedKeys(n.InFlight) {
 		fmt.Fprintf(&b, "%s:%v,", k, n.InFlight[k])
 	}
-	fmt.Fprintf(&b, "|%v|%v", n.Jails, n.Repls)
+	fmt.Fprintf(&b, "|%v|%v|%v", n.Jails, n.Repls, sortedKeys(n.Out))
 	return b.String()
 }
 
@@ -122,7 +132,7 @@ func (c Slash) NewWorker(stats *engine.Stats) (engine.Worker, error) {
 	if err := must(&st, env.MsgAssignKey(p.Vals[1], "0", w.kOld)); err != nil {
 		return nil, err
 	}
-	n := &slNode{XNode: &XNode{P: st, C: map[string]env.State{}, L: map[string]env.Link{}}, InFlight: map[string]bool{}, Stopped: map[string]bool{}}
+	n := &slNode{XNode: &XNode{P: st, C: map[string]env.State{}, L: map[string]env.Link{}}, InFlight: map[string]bool{}, Stopped: map[string]bool{}, Out: map[string]bool{}}
 	r := xw.PBlock(n.XNode, 0, nil)
 	if h := r.Halt(); h != "" {
 		return nil, fmt.Errorf("prefix block: %s", h)
@@ -165,6 +175,20 @@ func (c Slash) NewWorker(stats *engine.Stats) (engine.Worker, error) {
 	for _, cid := range w.cons {
 		if _, ok := xw.CA.K.GetProviderChannel(n.C[cid].Ctx); !ok {
 			return nil, fmt.Errorf("fixture: consumer %s does not know its CCV channel", cid)
+		}
+	}
+	if c.Variant == "ackloop" {
+		// a validator-set packet changing v2's power is in flight to both consumers: applying it must not
+		// make consumer 0 forget an outstanding report against v2
+		n.touchP()
+		if err := must(&n.P, env.MsgDelegate(p.Delegator, p.Vals[2], unit)); err != nil {
+			return nil, err
+		}
+		if r := xw.PBlock(n.XNode, 0, nil); r.Halt() != "" {
+			return nil, fmt.Errorf("prefix block: %s", r.Halt())
+		}
+		if len(n.L["0"].P2C.Packets) == 0 {
+			return nil, fmt.Errorf("fixture: no validator-set packet in flight to consumer 0")
 		}
 	}
 	w.root = n
@@ -372,10 +396,11 @@ func (w *slWorker) report(x *slNode, cid string, addr sdk.ConsAddress, inf staki
 	var vs []V
 	post := k.GetPendingPackets(s.Ctx)
 	downtime := inf == stakingtypes.Infraction_INFRACTION_DOWNTIME
-	if downtime && outstanding {
+	if downtime && (outstanding || x.Out[outKey(cid, addr)]) {
 		w.stats.Count("report-while-outstanding")
 		if len(post) != pre {
-			vs = append(vs, vf("C08", "second-outstanding-report", "consumer %s queued a second downtime report for %s while one is outstanding", cid, addr))
+			vs = append(vs, vf("C08", "second-outstanding-report", "consumer %s queued a second downtime report for %s while one is outstanding (flag=%v, no acknowledgement received since the first)", cid, addr, outstanding))
+			return nil, vs
 		}
 		return nil, vs // nothing changed
 	}
@@ -389,6 +414,9 @@ func (w *slWorker) report(x *slNode, cid string, addr sdk.ConsAddress, inf staki
 	}
 	if downtime && !k.OutstandingDowntime(s.Ctx, addr) {
 		vs = append(vs, vf("C08", "outstanding-flag-not-set", "consumer %s: downtime report for %s queued but not marked outstanding", cid, addr))
+	}
+	if downtime {
+		c.Out[outKey(cid, addr)] = true
 	}
 	w.stats.Count("report-queued")
 	return c, vs
@@ -408,10 +436,19 @@ func (w *slWorker) cblock(x *slNode, cid string) (engine.Node, []V) {
 	delay := k.GetRetryDelayPeriod(pre.Ctx)
 	_, chanOK := k.GetProviderChannel(pre.Ctx)
 	before := len(c.L[cid].C2P.Packets)
+	member := map[string]bool{}
+	for _, v := range k.GetAllCCValidator(pre.Ctx) {
+		member[outKey(cid, v.Address)] = true
+	}
 	r := w.w.CBlock(c.XNode, cid, 0, nil)
 	vs := haltViolation("consumer", r)
 	if r.Halt() != "" {
 		return nil, vs
+	}
+	for _, v := range k.GetAllCCValidator(c.C[cid].Ctx) {
+		if ok := outKey(cid, v.Address); !member[ok] {
+			delete(c.Out, ok) // joined anew: the consumer deliberately forgets an old report (issue 1569)
+		}
 	}
 	vs = append(vs, w.judgeSends(c, cid, pre.Time(), hasRec, rec.WaitingOnReply, rec.SendTime, delay, pending, chanOK, before)...)
 	return c, vs
@@ -891,6 +928,7 @@ func (w *slWorker) deliverVSC(x *slNode, cid string) (engine.Node, []V) {
 				continue
 			}
 			w.stats.Count("slash-ack-received")
+			delete(c.Out, outKey(cid, addr))
 			if k.OutstandingDowntime(c.C[cid].Ctx, addr) {
 				vs = append(vs, vf("C08", "outstanding-not-cleared", "consumer %s received the slash ack for %s but the report is still marked outstanding", cid, a))
 			}
@@ -938,5 +976,13 @@ func (w *slWorker) wait(x *slNode, dt time.Duration) (engine.Node, []V) {
 		vs = append(vs, w.judgeSends(c, cid, q.end, q.has, q.rec.waiting, q.rec.send, q.delay, q.pending, q.chanOK, q.before)...)
 	}
 	vs = append(vs, w.meterStep(c, prevP)...)
+	for key := range c.Out {
+		// packets relayed during the wait are not itemised here: trust the consumer's flag afterwards
+		cid, hx, _ := strings.Cut(key, "/")
+		bz, _ := hex.DecodeString(hx)
+		if s, ok := c.C[cid]; !ok || !k.OutstandingDowntime(s.Ctx, sdk.ConsAddress(bz)) {
+			delete(c.Out, key)
+		}
+	}
 	return c, vs
 }
